@@ -32,9 +32,10 @@ known_findings.json): a delivery with an altered timestamp / tx metadata is acce
 (`altered_ts_accepted`, `altered_txmd_accepted`; design finding K3), with `skipIntegrityCheck` the
 supplied `Eh` is ignored (`skip_integrity_ignores_eh`), the values-stripped form of a transaction
 is accepted with the SAME accumulated hash (`values_stripped_accepted_same_alh`), a discard does not
-lower a granted commit allowance (`allowance_survives_discard`), a transaction with `BlTxID = 0` is
-stored with the `BlRoot` left in the pooled `Tx` (`stale_blroot_breaks_rereplication`; hence
-`replica_prefix_partial`).  The proved part of "altered
+lower a granted commit allowance (`allowance_survives_discard`).  (A transaction with `BlTxID = 0`
+used to be stored with the `BlRoot` left in the pooled `Tx`; since the repair of `performPrecommit`
+it gets the zero root, `replica_prefix` holds without a hypothesis on the pool and the former
+counterexample run is `rereplication_from_genesis_restores_tx1`.)  The proved part of "altered
 header is detected" is `altered_header_detected_partial`.
 
 ACKNOWLEDGEMENTS ONLY COVER DURABLE STATE (section 6).  Proved: `AckOnDisk` is an invariant of every
@@ -97,8 +98,7 @@ theorem export_trailer_optional (x : Parsed) (hw : x.wf = true) (ht : x.truncate
 
 -- =============================================================== 2. the replica holds a prefix of the primary's history
 
-/-- **Replication reproduces the primary's history, whatever the schedule — PARTIAL.**
-FULL STATEMENT (false for the code as it is, refuted by `stale_blroot_breaks_rereplication`): from an
+/-- **Replication reproduces the primary's history, whatever the schedule.**  From an
 empty replica (same limits as the primary), after ANY sequence of operations in which every
 delivered byte string is an export — with values or by digest — of some transaction of the genuine
 history `P` (any order, duplicates, retries, with or without `skipIntegrityCheck`), interleaved
@@ -107,37 +107,34 @@ re-loads discarded precommitted transactions): the transactions the replica hold
 precommitted, are position by position the first transactions of `P` — same header (id, Ts, BlTxID,
 BlRoot, PrevAlh, version, metadata, NEntries, Eh), same accumulated hash, same entries (with their
 values, or without when replicated by digest).
-PROVED: exactly that, under the hypothesis `PoolFreshFrom`: whenever the next transaction of `P` the
-replica expects has `BlTxID = 0` (transaction 1 of every history), the pooled `Tx` object that
-`precommit` will use holds a zero `BlRoot`.  MISSING: the hypothesis cannot be dropped, because
-`performPrecommit` assigns `tx.header.BlRoot` only when `BlTxID > 0`; it holds e.g. for every run
-that never discards down to transaction 1 after a later transaction was precommitted. -/
-theorem replica_prefix_partial (hs : Hs D) (cfg : RCfg) (P : List (RRec D)) (hP : Genuine hs cfg P)
-    (ops : List Op) (hops : DeliversOnly P ops)
-    (hpool : PoolFreshFrom hs P (RSt.init cfg : RSt D) ops) :
+(Before the repair of `performPrecommit` — `tx.header.BlRoot` was assigned only when `BlTxID > 0` and a
+transaction with `BlTxID = 0` kept the `BlRoot` the pooled `Tx` held — this was provable only under a
+hypothesis on the pool, `replica_prefix_partial`.) -/
+theorem replica_prefix (hs : Hs D) (cfg : RCfg) (P : List (RRec D)) (hP : Genuine hs cfg P)
+    (ops : List Op) (hops : DeliversOnly P ops) :
     ((RSt.init cfg : RSt D).run hs ops).chain.length ≤ P.length ∧
     ∀ i (h : i < ((RSt.init cfg : RSt D).run hs ops).chain.length) (h' : i < P.length),
       SameTx ((((RSt.init cfg : RSt D).run hs ops).chain)[i]) (P[i]) :=
-  replica_prefix_aux (fun x hw => export_parse_roundtrip_aux x hw) hs cfg P hP ops hops hpool
+  replica_prefix_aux (fun x hw => export_parse_roundtrip_aux x hw) hs cfg P hP ops hops
 
-/-- **Witness: re-replication from genesis stores a wrong transaction 1 (GENUINE exports only).**
+/-- **Re-replication from genesis restores transaction 1 (the former counterexample run).**
 Deliver tx 1 and tx 2 of a genuine history (external commit allowance: both stay precommitted),
-`DiscardPrecommittedTxsSince(1)`, deliver tx 1 again: the replica now holds, as transaction 1, a
-record with `BlTxID = 0` and the `BlRoot` OF TRANSACTION 2 (left in the pooled `Tx`), which is
-hashed into its accumulated hash — not the primary's transaction 1. -/
-theorem stale_blroot_breaks_rereplication (hs : Hs D) (cfg : RCfg) (P : List (RRec D)) (hP : Genuine hs cfg P)
-    (h2 : 2 ≤ P.length) (hbl : (P[1]'(by omega)).hdr.blTxID = 1)
+`DiscardPrecommittedTxsSince(1)` — what the replicator does when told "precommit state diverged" with
+nothing committed yet — deliver tx 1 again: the replica holds exactly the primary's transaction 1
+(header with `BlTxID = 0` and the zero `BlRoot`, accumulated hash, entries).  Before the repair the
+stored record carried the `BlRoot` OF TRANSACTION 2, left in the pooled `Tx`. -/
+theorem rereplication_from_genesis_restores_tx1 (hs : Hs D) (cfg : RCfg) (P : List (RRec D)) (hP : Genuine hs cfg P)
+    (h2 : 2 ≤ P.length)
     (hcfg : cfg.synced = false ∧ cfg.extAllowance = true ∧ 2 ≤ cfg.maxActive)
     (b0 b1 : Bytes) (e0 : exportOf (P[0]'(by omega)) false = .ok b0) (e1 : exportOf (P[1]'(by omega)) false = .ok b1) :
     let st := (RSt.init cfg : RSt D).run hs [.deliver b0 false, .deliver b1 false, .discard 1, .deliver b0 false]
-    ∃ r, st.chain = [r] ∧ r.hdr.blTxID = 0 ∧ r.hdr.blRoot = (P[1]'(by omega)).hdr.blRoot :=
-  stale_blroot_rereplication (fun x hw => export_parse_roundtrip_aux x hw) hs cfg P hP h2 hbl hcfg b0 b1 e0 e1
+    ∃ r, st.chain = [r] ∧ SameTx r (P[0]'(by omega)) ∧ r.hdr.blTxID = 0 ∧ r.hdr.blRoot = zeros32 :=
+  rereplication_from_genesis (fun x hw => export_parse_roundtrip_aux x hw) hs cfg P hP h2 hcfg b0 b1 e0 e1
 
 /-- **The next genuine export is accepted** (the checks are complete): a replica holding the first
 `n` transactions of `P` accepts the export of transaction `n+1`, in either form, with or without
 `skipIntegrityCheck`, when the call does not have to wait for a predecessor, the precommit buffer
-has a free slot, the window of active transactions is not exhausted and (for a transaction with
-`BlTxID = 0`) the pooled `Tx` is fresh; it then holds `n+1`. -/
+has a free slot and the window of active transactions is not exhausted; it then holds `n+1`. -/
 theorem replica_accepts_next (hs : Hs D) (cfg : RCfg) (P : List (RRec D)) (hP : Genuine hs cfg P)
     (st : RSt D) (n : Nat) (hn : n < P.length) (tr skip : Bool)
     (hcfg : st.cfg.maxKeyLen = cfg.maxKeyLen ∧ st.cfg.maxValueLen = cfg.maxValueLen ∧ st.cfg.maxTxEntries = cfg.maxTxEntries)
@@ -145,12 +142,11 @@ theorem replica_accepts_next (hs : Hs D) (cfg : RCfg) (P : List (RRec D)) (hP : 
     (hwin : st.cfg.synced = true → n < st.committed.length + st.cfg.maxActive)
     (hact : 0 < st.cfg.maxActive)
     (hallow : st.cfg.extAllowance = true → st.allowed ≤ n + 1)
-    (hpool : (P[n]).hdr.blTxID = 0 → st.poolBlRoot = zeros32)
     (b : Bytes) (hb : exportOf (P[n]) tr = .ok b) :
     ∃ r, (replicate hs st b skip).out = .ok r ∧ SameTx r (P[n]) ∧
       HoldsPrefix (replicate hs st b skip).st P (n + 1) :=
   replica_accepts_next_aux (fun x hw => export_parse_roundtrip_aux x hw) hs cfg P hP st n hn tr skip
-    hcfg hpre hwait hbuf hwin hact hallow hpool b hb
+    hcfg hpre hwait hbuf hwin hact hallow b hb
 
 /-- **Whatever it is fed, a replica holds a well-formed chain.** For ANY sequence of operations with
 ARBITRARY delivered bytes (any `skipIntegrityCheck`), interleaved with syncs, discards, allowances
